@@ -13,9 +13,15 @@
                          = `untilP (anyOf [gt, endP])` (`gt_eq_byte`, `endP_eq_atEnd`: the two primitives of Model/Fasta.lean are
                          the ones of the modifier model the primitives' bridges speak about)
 
+    fastaSeq_simUpTo     the whole sequence of `FastaParser`, `pars.Seq('>', pars.Line, pars.Until(pars.Any('>', pars.End)))`, composed of
+                         the regenerated `Seq`, `Byte`, `Line`, `Until`, `Any`, `End` = the model's `fastaSeq` (`fastaSeq_eq_seq3`: it is
+                         the generic `seq3` of the modifier model); the children it leaves are the tokens the regenerated Map function
+                         reads (Gts/Bridge/FastaRead.lean).  The `Parser.Map` frame around it is not instantiated (its mapping stores
+                         an `interface{}`).
+
   A Go panic (a `Trail` whose saved position lies behind the current one, a panic of `q`) exactly when the model panics.
 -/
-import Gts.Bridge.ParsComb
+import Gts.Bridge.ParsSeq
 import Gts.Model.Fasta
 import Gts.Lemmas.Fasta
 import Gts.Lemmas.ParsSafe2
@@ -326,11 +332,74 @@ theorem fastaUntil_simUpTo (L fuel : Nat) (hfu : L < fuel) (env : Env ρ ε) (pe
     · simp [h] at hfail
     · simp [h]
 
+/-! ### the sequence of `FastaParser`: `pars.Seq('>', pars.Line, pars.Until(pars.Any('>', pars.End)))` -/
+
+/-- the value of a simulated model parser may be mapped on the model side -/
+theorem SimPUpTo.mapVal {α β : Type} {L : Nat} {pend : ρ → Option ε → Bytes} {val : α → ResultV → Prop}
+    {p : GoParser ρ ε} {m : Pars.P α} (h : SimPUpTo L pend val p m) (f : α → β) :
+    SimPUpTo L pend (fun b r => ∃ a, b = f a ∧ val a r) p (do let a ← m; pure (f a)) := by
+  intro g res hi hb
+  have := h g res hi hb
+  rw [Pars.run_bind]
+  revert this
+  generalize m.run' (absState pend g) = x
+  obtain ⟨o, s⟩ := x
+  cases o with
+  | ok a => exact fun ⟨g', r, h1, h2, h3, h4⟩ => ⟨g', r, h1, ⟨a, rfl, h2⟩, h3, h4⟩
+  | error e => cases e <;> exact id
+
+/-- the model's `fastaSeq` (Model/Fasta.lean, written out with its own `Push` / `Pop` / `Drop`) is the generic sequence of three of
+the modifier model over `'>'`, `pars.Line`, `pars.Until(pars.Any('>', pars.End))`, without the answer of `'>'` (`pars.Line` never
+fails, so its `Pop` branch is dead) -/
+theorem fastaSeq_eq_seq3 :
+    Fasta.fastaSeq = (do
+      let abc ← ModParse.seq3 Fasta.gt Pars.line (Fasta.untilP (LocParse.anyOf [Fasta.gt, Fasta.endP]))
+      pure (abc.2.1, abc.2.2)) := by
+  funext s
+  obtain ⟨t, stk⟩ := s
+  rw [Fasta.fastaSeq_run]
+  unfold ModParse.seq3
+  cases t with
+  | nil => simp [Fasta.bind_run, Fasta.attempt_run, Fasta.gt_run]
+  | cons c t' =>
+    by_cases hc : c == 62 <;>
+      simp [Fasta.bind_run, Fasta.map_run, Fasta.attempt_run, Fasta.gt_run, hc, Fasta.line_run, Fasta.untilP_run]
+
+/-- **The sequence of `FastaParser` at function level, BOUNDED.**  The regenerated `pars.Seq` over the regenerated `Byte('>')`, `Line`
+and `Until(Any(Byte('>'), End))` — the composition `fastaParser_shape` reads off the declaration — simulates the model's `fastaSeq`
+from every state with at most `L < fuel` bytes at the position and at every saved position: on success the result holds three
+children, the second the token of the description line, the third the token of the body — the two tokens the regenerated Map
+function `Gen.FastaRead.fastaMap` reads (`fastaMap_seq`: it stores `(description, fastaBody body)`). -/
+theorem fastaSeq_simUpTo (L fuel : Nat) (hfu : L < fuel) (env : Env ρ ε) (pend : ρ → Option ε → Bytes) (hf : FillOk env pend)
+    (he : EnvOk env) :
+    SimPUpTo L pend (fun db r => ∃ ra, r = .children [ra, .token db.1, .token db.2])
+      (parsSeq env [parsByte env 62, parsLine env fuel,
+        parsUntil env fuel (parsAny env [parsByte env 62, fun g r => some (parsEnd env g r)])])
+      Fasta.fastaSeq := by
+  rw [fastaSeq_eq_seq3]
+  have hgt : Pars.Safe Fasta.gt := by rw [gt_eq_byte]; exact Pars.byte_safe 62
+  have hb : SimPUpTo L pend (fun (_ : Unit) (_ : ResultV) => True) (parsByte env 62) Fasta.gt := by
+    rw [gt_eq_byte]; exact (byte_simUpTo L env pend hf 62).mono (fun _ _ _ => trivial)
+  have hline := (tokens_simUpTo L env pend hf he fuel hfu (fun _ => true) 0).2.2.1
+  have h3 := seq3_simUpTo L env pend _ _ _ _ _ _ _ _ _ hb hgt hline Pars.line_safe (fastaUntil_simUpTo L fuel hfu env pend hf)
+  refine (h3.mapVal (fun abc => (abc.2.1, abc.2.2))).mono ?_
+  rintro ⟨d, b⟩ r ⟨⟨a, d', b'⟩, hab, ra, rb, rc, hr, _, hrb, hrc⟩
+  simp only [Prod.mk.injEq] at hab
+  obtain ⟨rfl, rfl⟩ := hab
+  subst hrb hrc
+  exact ⟨ra, hr⟩
+
 /-- the hypotheses are satisfiable: the demonstration environment (a reader that hands over its bytes at once) -/
 example : SimPUpTo 100 demoPend (fun t r => r = ResultV.token t)
     (parsUntil demoEnv 101 (parsAny demoEnv [parsByte demoEnv 62, fun g r => some (parsEnd demoEnv g r)]))
     (Fasta.untilP (LocParse.anyOf [Fasta.gt, Fasta.endP])) :=
   fastaUntil_simUpTo 100 101 (by omega) demoEnv demoPend demo_fillOk
+
+example : SimPUpTo 100 demoPend (fun db r => ∃ ra, r = .children [ra, .token db.1, .token db.2])
+    (parsSeq demoEnv [parsByte demoEnv 62, parsLine demoEnv 101,
+      parsUntil demoEnv 101 (parsAny demoEnv [parsByte demoEnv 62, fun g r => some (parsEnd demoEnv g r)])])
+    Fasta.fastaSeq :=
+  fastaSeq_simUpTo 100 101 (by omega) demoEnv demoPend demo_fillOk demo_envOk
 
 end Until
 end Gts.Bridge
